@@ -84,6 +84,9 @@ Definition k2_witness : tree :=
 Definition k5_witness : tree := Nd [97; 58; 98] [Nd [99] []; Nd [97; 58; 99] []].
 Definition k4_witness : tree := Nd [120] [].
 Definition slash : str := [47].
+(* a(b [edge label 1], c(d [edge color r])) *)
+Definition ex_tree_s : tree :=
+  Nd [97] [Na [98] [(101 :: s_label, VStr [49])] []; Nd [99] [Na [100] [(101 :: s_color, VStr [114])] []]].
 Definition ex_tree_h : tree :=
   Nd [114] [Nd [97; 97; 97] [Nd [112] []; Nd [113] []];
             Nd [98] [Nd [99; 99; 99; 99; 99] [Nd [100] []]; Hole];
@@ -213,6 +216,23 @@ Theorem C18_dot_edges_exact : forall sep t,
   /\ graph_edges_ok (compact t) (dot_raw_nodes sep t) (dot_edges sep t) = true.
 Proof. exact dot_vertices_edges_exact. Qed.
 Print Assumptions C18_dot_edges_exact.
+
+(* every vertex carries its node's name as label and exactly the style its own node prescribes (the
+   node's own style dictionary when node_attr is given, over the defaults from node_colour /
+   node_shape), every edge exactly the style of the node it leads to (edge_attr over edge_colour):
+   nothing of another node or edge.  Guard: dictionaries have each key once and a node style has
+   no `label` entry *)
+Theorem C18_dot_attrs : forall o t,
+  styles_wf t = true -> prop_C18_attrs o t (dot_vertex_attrs o t) (dot_edge_attrs o t) = true.
+Proof. exact dot_attrs_exact. Qed.
+Print Assumptions C18_dot_attrs.
+
+Example C18_dot_attrs_witness :
+  styles_wf ex_tree_s = true
+  /\ dot_edge_attrs (DO None None (Some [98; 108; 117; 101]%N) false true) ex_tree_s
+     = [[(s_color, [98; 108; 117; 101]%N); (s_label, [49]%N)]; [(s_color, [98; 108; 117; 101]%N)];
+        [(s_color, [114]%N)]].
+Proof. vm_compute. split; reflexivity. Qed.
 
 (* Guards: no label ends in a decimal digit (K2), the nodes have pairwise different path names,
    no label contains ':' (K5).  Then the vertex names inside the pydot graph are pairwise different. *)
